@@ -1,5 +1,6 @@
 import Mieru.Proofs.LowEntropyCanon
 import Mieru.Proofs.PdepLoop
+import Mieru.Proofs.LowEntropyGenCodec
 /-!
 # C17 — low-entropy encoding is lossless, canonical, and identical on every CPU path
 
@@ -13,7 +14,19 @@ Proved here, for ALL bodies, modes, masks, rotations and both polarities:
   invalid parameters and inconsistent lengths, the rotation law `((i mod 64)·R) mod 64 = (i·R) mod 64`.
 Also proved: the portable Go loop (`mask & -mask` / `mask &= mask-1`), transcribed on 64-bit naturals,
 equals the bit-by-bit PDEP/PEXT spec for ALL 2^128 pairs (`pdepGo_eq_spec`, `pextGo_eq_spec`).
-Not proved (partial): the BMI2 instructions are hardware — differential only (see DESIGN.md).
+
+Round 3 — tie (T).  `Mieru.Gen.LE` is REGENERATED from pkg/mathext/bit.go and pkg/protocol/low_entropy.go on
+every run (tools/goextract/lowentropy.go: `uint64` ↦ `UInt64`, loops ↦ fuel-bounded recursion).  Proved below:
+the regenerated `pdepGeneric` / `pextGeneric` never run out of fuel and equal the specification for all 2^128
+pairs; `rotateLowEntropyMask`, `validateLowEntropyCodecParams`, `lowEntropyEncodedPayloadLen` equal the model;
+the encoder / decoder assembled from the regenerated statements (`GenDriver.LE.genEncode / genDecode`; only the
+byte moves are hand-read, and their verbatim text is checked here) equal `encode` / `decode` for ALL inputs —
+so round trip, length law, canonicity and rejection hold of the regenerated code (`gen_roundtrip`, …).
+The word-level formulas of the Go code (`PDEP(source,mask) | ^PDEP(lowBits,mask)`, `PEXT`, `chunk & ^dataMask`)
+against the bit lists: `encodeChunk_is_pdep`, `decodeChunk_is_pext`.
+Not proved (trusted): the BMI2 instructions `PDEPQ` / `PEXTQ` are hardware.  What is checked: the dispatch and the
+exact instruction lines of bit_amd64.s (`bmi2_dispatch_and_assembly_as_expected`) and a structured differential
+sweep against the portable routine on every run (harness).
 -/
 namespace Mieru.C17
 open Mieru Mieru.LowEntropy
@@ -224,14 +237,225 @@ are the line-by-line transcription of the loops of pkg/mathext/bit.go — `mask 
 Loop invariants in `Mieru.Proofs.PdepLoop`.  The BMI2 instructions remain differential only.) -/
 
 /-- the portable PDEP loop equals the specification on all 64-bit words -/
-theorem pdepGo_eq_spec (x mask : Nat) (hx : x < 2^64) (hm : mask < 2^64) : pdepGo x mask = pdep x mask :=
+theorem pdepGo_eq_spec (x mask : Nat) (hx : x < 2^64) (hm : mask < 2^64) : pdepGo x mask = some (pdep x mask) :=
   have _ := hx
   pdepGo_eq_pdep x mask hm
 
 /-- the portable PEXT loop equals the specification on all 64-bit words -/
-theorem pextGo_eq_spec (x mask : Nat) (hx : x < 2^64) (hm : mask < 2^64) : pextGo x mask = pext x mask :=
+theorem pextGo_eq_spec (x mask : Nat) (hx : x < 2^64) (hm : mask < 2^64) : pextGo x mask = some (pext x mask) :=
   have _ := hx
   pextGo_eq_pext x mask hm
+
+
+/-! ## Round 3: the REGENERATED code (`Mieru.Gen.LE`, translated from the Go source on every run) -/
+
+section Regenerated
+open Mieru.Gen.LE Mieru.GenDriver.LE Mieru.GoWord
+
+/-- The regenerated portable PDEP (pkg/mathext/bit.go `pdepGeneric`, a `UInt64` loop) terminates within its
+    fuel and equals the bit-by-bit specification — for ALL 2^128 input pairs. -/
+theorem gen_pdep_eq_spec (x mask : UInt64) :
+    pdepGeneric x mask = some (UInt64.ofNat (pdep x.toNat mask.toNat)) := pdepGeneric_eq x mask
+
+/-- …and the regenerated portable PEXT. -/
+theorem gen_pext_eq_spec (x mask : UInt64) :
+    pextGeneric x mask = some (UInt64.ofNat (pext x.toNat mask.toNat)) := pextGeneric_eq x mask
+
+/-- consequently the two regenerated routines are mutually inverse on the mask's positions:
+    `PEXT(PDEP(x, m), m) = x` restricted to `popcount m` bits is the model's `split_deposit`; stated here as
+    the agreement of both with the same bit-list semantics for every pair. -/
+theorem gen_pdep_pext_same_mask_semantics (x mask : UInt64) :
+    ∃ d e, pdepGeneric x mask = some d ∧ pextGeneric x mask = some e ∧
+      d.toNat = pdep x.toNat mask.toNat ∧ e.toNat = pext x.toNat mask.toNat := by
+  refine ⟨_, _, pdepGeneric_eq x mask, pextGeneric_eq x mask, ?_, ?_⟩
+  · rw [UInt64.toNat_ofNat', Nat.mod_eq_of_lt (pdep_lt _ _)]
+  · rw [UInt64.toNat_ofNat', Nat.mod_eq_of_lt (pext_lt _ _)]
+
+/-- The regenerated `rotateLowEntropyMask` (with Go's `bits.RotateLeft64` and its `(chunkIndex % 64) * R`
+    arithmetic) is the model's chunk mask — for every initial mask, rotation byte and chunk index. -/
+theorem gen_rotate_eq_model (initialMask : UInt64) (rotation chunkIndex : Nat) :
+    Bits.ofNat 64 (rotateLowEntropyMask initialMask rotation chunkIndex).toNat
+      = chunkMask (Bits.ofNat 64 initialMask.toNat) rotation chunkIndex :=
+  chunkMask_eq_gen initialMask rotation chunkIndex
+
+/-- `mathext.RepeatUint32` is the model's 64-bit mask -/
+theorem gen_repeat_eq_model (half : UInt32) : Bits.ofNat 64 (repeatUint32 half).toNat = fullMask half.toNat :=
+  fullMask_eq_gen half
+
+/-- The regenerated `validateLowEntropyCodecParams` accepts exactly the model's `validParams` (mode, mask
+    weight, rotation) and returns the mode's (C, weight). -/
+theorem gen_validate_eq_model (mode : Nat) (half : UInt32) (rot : Nat) :
+    (validateLowEntropyCodecParams mode half rot).isSome = validParams mode half.toNat rot ∧
+    (∀ c k, validateLowEntropyCodecParams mode half rot = some (c, k) →
+      sourceBytes mode = some c.toNat ∧ halfOnes mode = some k.toNat ∧ 0 ≤ c ∧ 0 ≤ k) := by
+  rw [validate_eq]
+  by_cases hv : validParams mode half.toNat rot = true
+  · obtain ⟨c, k, hc, hk⟩ := validParams_modes _ _ _ hv
+    rw [if_pos hv, hc, hk, hv]
+    refine ⟨rfl, ?_⟩
+    intro c' k' h
+    simp only [Option.some.injEq, Prod.mk.injEq] at h
+    obtain ⟨rfl, rfl⟩ := h
+    simp
+  · rw [if_neg hv]
+    have : validParams mode half.toNat rot = false := by simpa using hv
+    rw [this]
+    exact ⟨rfl, fun _ _ h => by simp at h⟩
+
+/-- The regenerated length law `lowEntropyEncodedPayloadLen` is the model's `encodedLen`. -/
+theorem gen_encodedLen_eq_model (n mode : Nat) :
+    Mieru.Gen.Arith.lowEntropyEncodedPayloadLen n mode = (encodedLen n mode).map Int.ofNat :=
+  encodedLen_eq n mode
+
+/-- The regenerated `validateLowEntropyDataAckMetadata` (pkg/protocol/metadata.go) is the model's `metaValid`,
+    for every protocol type, mode, mask, rotation and pair of length fields. -/
+theorem gen_meta_eq_model (proto mode : Nat) (half : UInt32) (rot pl el : Nat) :
+    validateLowEntropyDataAckMetadata proto mode half rot pl el = metaValid proto mode half.toNat rot pl el :=
+  metaValid_eq_gen proto mode half rot pl el
+
+/-- Metadata validation, both directions: accepted ⇔ low-entropy type ∧ extracted length ≤ 32768 ∧ valid
+    (mode, mask weight, rotation) ∧ the two length fields are tied by the length law (0 ↦ 0). -/
+theorem le_meta_validation_iff (proto mode half rot pl el : Nat) :
+    metaValid proto mode half rot pl el = true ↔
+      ((proto = 10 ∨ proto = 11) ∧ el ≤ 32768 ∧ validParams mode half rot = true ∧
+       (el = 0 → pl = 0) ∧ (0 < el → encodedLen el mode = some pl)) := by
+  constructor
+  · exact le_meta_validation_sound proto mode half rot pl el
+  · rintro ⟨hp, he, hv, h0, h1⟩
+    unfold metaValid
+    have hp' : (proto == 10 || proto == 11) = true := by rcases hp with h | h <;> simp [h]
+    by_cases hz : el = 0
+    · have := h0 hz; subst hz; subst this; simp [hp', hv]
+    · have hl := h1 (by omega)
+      have h8 : pl % 8 = 0 := by
+        unfold encodedLen at hl
+        split at hl
+        · simp at hl
+        · split at hl
+          · simp at hl
+          · split at hl
+            · simp at hl
+            · simp at hl; omega
+      simp [hp', he, hv, hz, hl, h8]
+
+/-- what the SENDER writes validates at the receiver: for a body the encoder accepts, the metadata
+    (type 10/11, the encoder's mode / mask / rotation, payloadLen = |encoded|, extractedLen = |body| ≤ 32768) pass
+    `validateLowEntropyDataAckMetadata`, and the decoder's own parameter checks are subsumed by it. -/
+theorem le_meta_valid_of_encode (src : Bytes) (proto mode half rot : Nat) (pad : Bool) (e : Bytes)
+    (hproto : proto = 10 ∨ proto = 11) (hlen : src.length ≤ 32768)
+    (h : encode src mode half rot pad = some e) :
+    metaValid proto mode half rot e.length src.length = true := by
+  rw [le_meta_validation_iff]
+  obtain ⟨c, el, hv, hc, hel, rfl⟩ := encode_eq src mode half rot pad e h
+  obtain ⟨c', hc', hl⟩ := le_length src mode half rot pad _ h
+  rw [hc] at hc'; cases hc'
+  have hne : src.length ≠ 0 := by
+    intro h0; simp [encodedLen, hc, h0] at hel
+  refine ⟨hproto, hlen, hv, fun h0 => absurd h0 hne, fun _ => ?_⟩
+  rw [hl, hel]
+  unfold encodedLen at hel
+  rw [hc] at hel
+  simp only at hel
+  split at hel
+  · simp at hel
+  · split at hel
+    · simp at hel
+    · simp at hel; rw [← hel]
+
+/-- The Go encoder's word formula is the bit-by-bit chunk encoding:
+    `chunk = PDEP(source, mask) | (pad ? ^PDEP(lowBits(8·len), mask) : 0)`, stored big-endian. -/
+theorem encodeChunk_is_pdep (mask : List Bool) (hm : mask.length = 64) (src : Bytes) (hs : src.length ≤ 8) (pad : Bool) :
+    encodeChunk mask src pad = natBytes 8 (encodeChunkW (Bits.toNat mask) src pad) :=
+  encodeChunk_eq_pdep mask hm src hs pad
+
+/-- The Go decoder's word formulas are the bit-by-bit chunk decoding: the data is the low `n` bytes of
+    `PEXT(chunk, mask)`; all padding positions are 0 iff `chunk & ^dataMask == 0`, all 1 iff `== ^dataMask`. -/
+theorem decodeChunk_is_pext (mask : List Bool) (hm : mask.length = 64) (ch : Bytes) (hch : ch.length = 8) (n : Nat)
+    (hn : 8 * n ≤ Bits.popcount mask) :
+    let w := decodeChunkW (Bits.toNat mask) (beNat ch) n
+    (decodeChunk mask ch n).1 = natBytes n w.1 ∧
+    ((decodeChunk mask ch n).2.all (· == false) = true ↔ w.2.1 = 0) ∧
+    ((decodeChunk mask ch n).2.all (· == true) = true ↔ w.2.1 = w.2.2) :=
+  decodeChunk_eq_pext mask hm ch hch n hn
+
+/-- **The encoder assembled from the regenerated Go statements equals the specification**, for every body,
+    mode, half mask, rotation and padding bit ≤ 1 (a padding bit > 1 is rejected by both: see the example). -/
+theorem gen_encode_eq_spec (src : Bytes) (mode : Nat) (half : UInt32) (rot : Nat) (pad : UInt8) (hpad : pad ≤ 1) :
+    genEncode src mode half rot pad = encode src mode half.toNat rot (pad == 1) :=
+  genEncode_eq src mode half rot pad hpad
+
+/-- **The decoder assembled from the regenerated Go statements equals the specification**, for every byte
+    string and every metadata combination. -/
+theorem gen_decode_eq_spec (enc : Bytes) (n mode : Nat) (half : UInt32) (rot : Nat) :
+    genDecode enc n mode half rot = decode enc n mode half.toNat rot :=
+  genDecode_eq enc n mode half rot
+
+/-- Composed: round trip, length law and canonicity OF THE REGENERATED CODE (the property's sentence with the
+    Go statements inside it). -/
+theorem gen_roundtrip (src : Bytes) (mode : Nat) (half : UInt32) (rot : Nat) (pad : UInt8) (hpad : pad ≤ 1) (e : Bytes)
+    (h : genEncode src mode half rot pad = some e) :
+    genDecode e src.length mode half rot = some src ∧
+    ∃ c, sourceBytes mode = some c ∧ e.length = ceilDiv src.length c * 8 := by
+  rw [gen_encode_eq_spec _ _ _ _ _ hpad] at h
+  rw [gen_decode_eq_spec]
+  exact ⟨le_roundtrip _ _ _ _ _ _ h, le_length _ _ _ _ _ _ h⟩
+
+theorem gen_canonical (e : Bytes) (n mode : Nat) (half : UInt32) (rot : Nat) (s : Bytes)
+    (h : genDecode e n mode half rot = some s) :
+    s.length = n ∧ ∃ pad : UInt8, pad ≤ 1 ∧ genEncode s mode half rot pad = some e := by
+  rw [gen_decode_eq_spec] at h
+  obtain ⟨hl, pad, hp⟩ := le_canonical _ _ _ _ _ _ h
+  refine ⟨hl, if pad then 1 else 0, ?_, ?_⟩
+  · cases pad <;> decide
+  · rw [gen_encode_eq_spec _ _ _ _ _ (by cases pad <;> decide)]
+    cases pad <;> simpa using hp
+
+/-- the regenerated code rejects an invalid mode, a wrong mask weight and an invalid rotation, in both directions -/
+theorem gen_rejects_invalid_params (b : Bytes) (n mode : Nat) (half : UInt32) (rot : Nat) (pad : UInt8) (hpad : pad ≤ 1)
+    (h : validParams mode half.toNat rot = false) :
+    genEncode b mode half rot pad = none ∧ genDecode b n mode half rot = none := by
+  rw [gen_encode_eq_spec _ _ _ _ _ hpad, gen_decode_eq_spec]
+  exact le_rejects_invalid_params _ _ _ _ _ _ h
+
+/-- The statements of the two Go functions that are NOT translated (allocation, loop header, byte moves, final
+    return) are verbatim the ones the loop skeleton `GenDriver.LE.encLoop / decLoop` was written for. -/
+theorem byte_statements_as_expected :
+    encByteStatements = [
+      "encoded := make([]byte, int(encodedLen))",
+      "for chunkIndex, srcOffset := 0, 0; srcOffset < len(src); chunkIndex, srcOffset = chunkIndex+1, srcOffset+params.sourceBytesPerChunk",
+      "var scratch [lowEntropyChunkLen]byte",
+      "copy(scratch[lowEntropyChunkLen-sourceLen:], src[srcOffset:srcOffset+sourceLen])",
+      "source := binary.BigEndian.Uint64(scratch[:])",
+      "binary.BigEndian.PutUint64(encoded[chunkIndex*lowEntropyChunkLen:], chunk)",
+      "return encoded, nil"] ∧
+    decByteStatements = [
+      "decoded := make([]byte, extractedPayloadLen)",
+      "for chunkIndex, dstOffset := 0, 0; dstOffset < extractedPayloadLen; chunkIndex, dstOffset = chunkIndex+1, dstOffset+params.sourceBytesPerChunk",
+      "chunk := binary.BigEndian.Uint64(encoded[chunkIndex*lowEntropyChunkLen:])",
+      "var scratch [lowEntropyChunkLen]byte",
+      "binary.BigEndian.PutUint64(scratch[:], source)",
+      "copy(decoded[dstOffset:dstOffset+sourceLen], scratch[lowEntropyChunkLen-sourceLen:])",
+      "return decoded, nil"] ∧
+    Mieru.Gen.lowEntropyChunkLen = 8 := ⟨rfl, rfl, rfl⟩
+
+/-- What is TRUSTED about the hardware path, made explicit and regenerated: `PDEP`/`PEXT` call `pdepImpl` /
+    `pextImpl`, which are the portable routines unless `init` (amd64, `cpu.X86.HasBMI2`) installs the two
+    assembly routines, each of which is exactly `MOVQ x,AX; MOVQ mask,CX; PDEPQ|PEXTQ CX, AX, AX; MOVQ AX,ret; RET`
+    (Go assembler operand order: `PDEPQ mask, src, dst`).  The semantics of the two BMI2 instructions is the
+    only assumption; the harness compares them with the portable routine on every run. -/
+theorem bmi2_dispatch_and_assembly_as_expected :
+    dispatchDefaults = ["pdepImpl = pdepGeneric", "pextImpl = pextGeneric"] ∧
+    dispatchBodies = ["PDEP: { return pdepImpl(x, mask) }", "PEXT: { return pextImpl(x, mask) }"] ∧
+    dispatchAssignments = [
+      "bit_amd64.go init: if cpu.X86.HasBMI2: pdepImpl = pdepBMI2",
+      "bit_amd64.go init: if cpu.X86.HasBMI2: pextImpl = pextBMI2"] ∧
+    asmLines = [
+      "TEXT ·pdepBMI2(SB), NOSPLIT, $0-24", "MOVQ x+0(FP), AX", "MOVQ mask+8(FP), CX", "PDEPQ CX, AX, AX",
+      "MOVQ AX, ret+16(FP)", "RET",
+      "TEXT ·pextBMI2(SB), NOSPLIT, $0-24", "MOVQ x+0(FP), AX", "MOVQ mask+8(FP), CX", "PEXTQ CX, AX, AX",
+      "MOVQ AX, ret+16(FP)", "RET"] := ⟨rfl, rfl, rfl, rfl⟩
+
+end Regenerated
 
 /-! ## Non-vacuity: the document's worked example, both polarities, and a rotated multi-chunk body -/
 example : encode [0x12, 0x34, 0x56, 0x78] 1 0x0f0f0f0f 0 false = some [1, 2, 3, 4, 5, 6, 7, 8] := by decide
@@ -244,22 +468,104 @@ example : metaValid 10 1 0x0f0f0f0f 3 16 5 = true := by decide
 example : decode [0x01, 0x02, 0x03, 0x04, 0x05, 0x06, 0x07, 0xf8] 4 1 0x0f0f0f0f 0 = none := by decide
 
 /-- PDEP / PEXT: loop transcription and specification on concrete 64-bit words -/
-example : pdepGo 0x12345678 0x0f0f0f0f0f0f0f0f = 0x0102030405060708 ∧
+example : pdepGo 0x12345678 0x0f0f0f0f0f0f0f0f = some 0x0102030405060708 ∧
     pdep 0x12345678 0x0f0f0f0f0f0f0f0f = 0x0102030405060708 := by decide
-example : pextGo 0x0102030405060708 0x0f0f0f0f0f0f0f0f = 0x12345678 ∧
+example : pextGo 0x0102030405060708 0x0f0f0f0f0f0f0f0f = some 0x12345678 ∧
     pext 0x0102030405060708 0x0f0f0f0f0f0f0f0f = 0x12345678 := by decide
 set_option maxRecDepth 4096 in
-example : pdepGo 0xffffffffffffffff 0xffffffffffffffff = 0xffffffffffffffff ∧
+example : pdepGo 0xffffffffffffffff 0xffffffffffffffff = some 0xffffffffffffffff ∧
     pdep 0xffffffffffffffff 0xffffffffffffffff = 0xffffffffffffffff ∧
-    pextGo 0xffffffffffffffff 0xffffffffffffffff = 0xffffffffffffffff ∧
+    pextGo 0xffffffffffffffff 0xffffffffffffffff = some 0xffffffffffffffff ∧
     pext 0xffffffffffffffff 0xffffffffffffffff = 0xffffffffffffffff := by decide
-example : pdepGo 0xdeadbeefcafef00d 0x8000000000000001 = 1 ∧
+example : pdepGo 0xdeadbeefcafef00d 0x8000000000000001 = some 1 ∧
     pdep 0xdeadbeefcafef00d 0x8000000000000001 = 1 ∧
-    pextGo 0xdeadbeefcafef00d 0x8000000000000001 = 3 ∧
+    pextGo 0xdeadbeefcafef00d 0x8000000000000001 = some 3 ∧
     pext 0xdeadbeefcafef00d 0x8000000000000001 = 3 := by decide
-example : pdepGo 0xdeadbeefcafef00d 0 = 0 ∧ pdep 0xdeadbeefcafef00d 0 = 0 ∧
-    pextGo 0xdeadbeefcafef00d 0 = 0 ∧ pext 0xdeadbeefcafef00d 0 = 0 := by decide
-example : pdepGo 0xdeadbeefcafef00d 0xf0f0aa5533cc0ff0 = pdep 0xdeadbeefcafef00d 0xf0f0aa5533cc0ff0 ∧
-    pextGo 0xdeadbeefcafef00d 0xf0f0aa5533cc0ff0 = pext 0xdeadbeefcafef00d 0xf0f0aa5533cc0ff0 := by decide
+example : pdepGo 0xdeadbeefcafef00d 0 = some 0 ∧ pdep 0xdeadbeefcafef00d 0 = 0 ∧
+    pextGo 0xdeadbeefcafef00d 0 = some 0 ∧ pext 0xdeadbeefcafef00d 0 = 0 := by decide
+example : pdepGo 0xdeadbeefcafef00d 0xf0f0aa5533cc0ff0 = some (pdep 0xdeadbeefcafef00d 0xf0f0aa5533cc0ff0) ∧
+    pextGo 0xdeadbeefcafef00d 0xf0f0aa5533cc0ff0 = some (pext 0xdeadbeefcafef00d 0xf0f0aa5533cc0ff0) := by decide
+
+/-- the regenerated code on the document's worked example, both polarities; a padding bit > 1, a heavier mask and
+    rotation 17 are rejected; rotation 15 rotates (chunk 1 differs from chunk 0) -/
+example : Mieru.GenDriver.LE.genEncode [0x12, 0x34, 0x56, 0x78] 1 0x0f0f0f0f 0 0 = some [1, 2, 3, 4, 5, 6, 7, 8] := by decide
+example : Mieru.GenDriver.LE.genEncode [0x12, 0x34, 0x56, 0x78] 1 0x0f0f0f0f 0 1
+    = some [0xf1, 0xf2, 0xf3, 0xf4, 0xf5, 0xf6, 0xf7, 0xf8] := by decide
+example : Mieru.GenDriver.LE.genDecode [0xf1, 0xf2, 0xf3, 0xf4, 0xf5, 0xf6, 0xf7, 0xf8] 4 1 0x0f0f0f0f 0 = some [0x12, 0x34, 0x56, 0x78] := by decide
+example : Mieru.GenDriver.LE.genEncode [0x12] 1 0x0f0f0f0f 0 2 = none := by decide
+example : Mieru.GenDriver.LE.genEncode [0x12] 1 0x0f0f0f1f 0 0 = none ∧ Mieru.GenDriver.LE.genEncode [0x12] 1 0x0f0f0f0f 17 0 = none := by decide
+example : Mieru.Gen.LE.pdepGeneric 0x12345678 0x0f0f0f0f0f0f0f0f = some 0x0102030405060708 ∧
+    Mieru.Gen.LE.pextGeneric 0x0102030405060708 0x0f0f0f0f0f0f0f0f = some 0x12345678 := by decide
+example : Mieru.Gen.LE.rotateLowEntropyMask 0x0f0f0f0f0f0f0f0f 15 1 = 0x1e1e1e1e1e1e1e1e ∧
+    Mieru.Gen.LE.rotateLowEntropyMask 0x0f0f0f0f0f0f0f0f 16 1 = 0x1e1e1e1e1e1e1e1e ∧
+    Mieru.Gen.LE.rotateLowEntropyMask 0x0f0f0f0f0f0f0f0f 1 1 = 0x8787878787878787 := by decide
+
+/-! ## The wire-level wrappers (ciphertext body ‖ tag) -/
+
+/-- Wire-level wrappers: what `encodeLowEntropyEncryptedPayload` emits for `ciphertext ‖ tag` is accepted by
+    `decodeLowEntropyEncryptedPayload` under the same (valid) metadata and gives back `ciphertext ‖ tag`;
+    the tag bytes are untouched, and the encoded body has the length the metadata announces. -/
+theorem wrap_roundtrip (ct : Bytes) (proto mode half rot pl el : Nat) (pad : Bool) (w : Bytes)
+    (hproto : proto = 10 ∨ proto = 11) (hel : el ≤ 32768)
+    (h : wrapEncode ct mode half rot pl el pad = some w) :
+    wrapDecode w proto mode half rot pl el = some ct ∧
+    w.length = pl + tagLen ∧ w.drop pl = ct.drop el ∧ (ct.drop el).length = tagLen := by
+  unfold wrapEncode at h
+  split at h
+  · simp at h
+  · rename_i hlen
+    have hlen' : ct.length = el + tagLen := by simpa using hlen
+    split at h
+    · simp at h
+    · rename_i body henc
+      split at h
+      · simp at h
+      · rename_i hbl
+        have hbl' : body.length = pl := by simpa using hbl
+        simp only [Option.some.injEq] at h
+        subst h
+        have htl : (ct.take el).length = el := by rw [List.length_take]; omega
+        have hrt := le_roundtrip _ _ _ _ _ _ henc
+        rw [htl] at hrt
+        obtain ⟨c, hc, hlenlaw⟩ := le_length _ _ _ _ _ _ henc
+        rw [htl, hbl'] at hlenlaw
+        obtain ⟨c', el', hv, hc', hel', _⟩ := encode_eq _ _ _ _ _ _ henc
+        rw [htl] at hel'
+        have hmeta : metaValid proto mode half rot pl el = true := by
+          unfold metaValid
+          have hne : el ≠ 0 := by
+            intro h0; subst h0
+            simp [encodedLen, hc'] at hel'
+          have hel'' : encodedLen el mode = some pl := by
+            rw [hel']
+            unfold encodedLen at hel'
+            rw [hc'] at hel'
+            rw [hc] at hc'; cases hc'
+            simp only at hel'
+            split at hel'
+            · simp at hel'
+            · split at hel'
+              · simp at hel'
+              · simp at hel'; rw [← hel', hlenlaw]
+          have h8 : pl % 8 = 0 := by rw [hlenlaw]; omega
+          simp only [hv, hel'', Bool.and_true]
+          rcases hproto with rfl | rfl <;> simp [hel, h8, hne]
+        refine ⟨?_, ?_, ?_, ?_⟩
+        · unfold wrapDecode
+          simp only [hmeta, Bool.not_true, Bool.false_eq_true, if_false, List.length_append, hbl', List.length_drop, hlen']
+          have e1 : ¬ (pl + (el + tagLen - el) ≠ pl + tagLen) := by omega
+          rw [if_neg e1, ← hbl', List.take_left, List.drop_left, hrt]
+          simp only [List.take_append_drop]
+        · simp [hbl', hlen']
+        · rw [← hbl', List.drop_left]
+        · simp [hlen']
+
+example : wrapEncode ([0x12, 0x34, 0x56, 0x78] ++ List.replicate 16 0xaa) 1 0x0f0f0f0f 0 8 4 false
+    = some ([1, 2, 3, 4, 5, 6, 7, 8] ++ List.replicate 16 0xaa) := by decide
+example : wrapDecode ([1, 2, 3, 4, 5, 6, 7, 8] ++ List.replicate 16 0xaa) 10 1 0x0f0f0f0f 0 8 4
+    = some ([0x12, 0x34, 0x56, 0x78] ++ List.replicate 16 0xaa) := by decide
+/-- an empty ciphertext body has no low-entropy form; metadata that do not validate are refused before decoding -/
+example : wrapEncode (List.replicate 16 0xaa) 1 0x0f0f0f0f 0 0 0 false = none := by decide
+example : wrapDecode ([1, 2, 3, 4, 5, 6, 7, 8] ++ List.replicate 16 0xaa) 6 1 0x0f0f0f0f 0 8 4 = none := by decide
 
 end Mieru.C17
